@@ -601,7 +601,9 @@ func (g *gen) step() {
 			qs = nil
 		}
 		// pending melts among them are re-polled: give each poll an answer
-		s.OpCheckState(qs, g.script(3, false))
+		// (map iteration order in the mint: all polls of one request get the same answer)
+		one := g.script(1, false)[0]
+		s.OpCheckState(qs, []string{one, one, one, one, one, one})
 	case w < 96: // restore
 		var qs []cashu.BlindedMessage
 		n := 1 + r.Intn(6)
